@@ -722,6 +722,9 @@ func (ev *Env) call(e *ECall) Value {
 	if sf, ok := fx.E.specFuncs[e.Fun]; ok {
 		return sf(ev, e)
 	}
+	if fd, ok := fx.E.S.Folds[e.Fun]; ok {
+		return ev.evalFold(fd, e)
+	}
 	if fx.E.S.GhostFields[e.Fun] {
 		if len(e.Args) != 1 {
 			ev.errf("ghost field %s expects one argument (the object)", e.Fun)
@@ -789,3 +792,65 @@ func (fx *fx) constValue(c constant.Value, T types.Type) Value {
 }
 
 var _ = ssa.NaiveForm
+
+// foldDepth: how many one-step unfoldings are asserted for every fold term a clause mentions (a cursor that advances
+// by up to four bytes per iteration needs four).
+const foldDepth = 4
+
+// evalFold evaluates name(s, lo, hi) for a user-defined fold: an uninterpreted function of (byte memory, first address,
+// end address) whose recursive definition is asserted, unfolded foldDepth times, at every term used.
+func (ev *Env) evalFold(fd *Fold, e *ECall) Value {
+	if len(e.Args) != 3 {
+		ev.errf("%s(slice, lo, hi)", fd.Name)
+	}
+	fx := ev.fr.fx
+	s := ev.eval(e.Args[0])
+	lo := ev.evalI(e.Args[1])
+	hi := ev.evalI(e.Args[2])
+	if s.Kind != KSlice || elemSize(s) != 1 {
+		ev.errf("%s: byte slice expected", fd.Name)
+	}
+	el := under(s.Typ).(*types.Slice).Elem()
+	fn := "fold!" + fd.Name
+	if fx.enc.foldSeen == nil {
+		fx.enc.foldSeen = map[string]bool{}
+	}
+	if !fx.enc.foldSeen["def:"+fd.Name] {
+		fx.enc.foldSeen["def:"+fd.Name] = true
+		// the step function, as an SMT term over (m, j, acc): evaluate the step expression with s bound to a slice at
+		// address 0 of an array variable and k to the address j
+		st := &State{Cells: map[interface{}]Value{}, Heap: map[string]Term{"M." + typeKey(el): "m"}, Brk: "0"}
+		sub := &Env{fr: ev.fr, vars: map[string]Value{}, cur: st, old: st, nq: ev.nq, pkg: ev.pkg, bound: map[string]bool{}}
+		sub.vars[fd.S] = Value{Kind: KSlice, T: "0", Len: "0", Cap: "0", Typ: s.Typ}
+		sub.vars[fd.K] = IntV("j", tInt)
+		sub.vars[fd.Acc] = IntV("acc", tInt)
+		sub.bound[fd.S], sub.bound[fd.K], sub.bound[fd.Acc] = true, true, true
+		fx.enc.quiet++
+		stepV := sub.eval(fd.Step)
+		initV := sub.eval(fd.Init)
+		fx.enc.quiet--
+		stepT, initT := stepV.T, initV.T
+		if stepV.Kind == KBool {
+			stepT = Ite(stepV.T, "1", "0")
+		}
+		fx.enc.foldDefs = append(fx.enc.foldDefs,
+			fmt.Sprintf("(define-fun %s!step ((m (Array Int Int)) (j Int) (acc Int)) Int %s)\n(define-fun %s!init () Int %s)\n(declare-fun %s ((Array Int Int) Int Int) Int)\n", fn, stepT, fn, initT, fn))
+	}
+	arr := fx.heapOf(ev.cur, "M."+typeKey(el))
+	a, h := Add(s.T, lo), Add(s.T, hi)
+	t := app(fn, arr, a, h)
+	if fx.enc.quiet == 0 {
+		cur := h
+		for d := 0; d < foldDepth; d++ {
+			ct := app(fn, arr, a, cur)
+			if fx.enc.foldSeen[ct] {
+				break
+			}
+			fx.enc.foldSeen[ct] = true
+			prev := Sub(cur, "1")
+			fx.enc.Assume(Eq(ct, Ite(Le(cur, a), fn+"!init", app(fn+"!step", arr, prev, app(fn, arr, a, prev)))))
+			cur = prev
+		}
+	}
+	return IntV(t, tInt)
+}
